@@ -137,7 +137,7 @@ static bool seq_nontrivial(const uint32_t* v, int n) {   /* >=2 runs or a run >=
 
 static void stage_hybrid(void) {
     uint32_t v[600];
-    int L1 = mc_thorough() ? 21 : 17;
+    int L1 = mc_thorough() ? 23 : 21;
     mc_stage("hybrid.width1.all-binary-sequences");
     for (int n = 0; n <= L1; n++)
         for (uint32_t bits = 0; bits < (1u << n); bits++) {
@@ -148,7 +148,7 @@ static void stage_hybrid(void) {
             if (seq_nontrivial(v, n)) mc_nontrivial();
             check_hybrid(v, n, 1);
         }
-    int L3 = mc_thorough() ? 10 : 8;
+    int L3 = mc_thorough() ? 11 : 10;
     mc_stage("hybrid.width2-32.all-ternary-sequences");
     for (int bw = 2; bw <= 32; bw++) {
         uint32_t mx = bw == 32 ? 0xffffffffu : ((1u << bw) - 1);
@@ -166,7 +166,7 @@ static void stage_hybrid(void) {
     }
     static const int RL[] = { 1, 2, 7, 8, 9, 15, 16, 17, 63, 64, 65 };
     static const int WQ[] = { 1, 2, 3, 5, 8, 9, 16, 17, 31, 32 };
-    int maxruns = mc_thorough() ? 4 : 3;
+    int maxruns = 4;
     mc_stage("hybrid.run-structured");
     for (int wi = 0; wi < 10; wi++) {
         int bw = WQ[wi]; uint32_t mx = bw == 32 ? 0xffffffffu : ((1u << bw) - 1);
@@ -256,7 +256,7 @@ static void stage_stream(void) {
     uint32_t v[200];
     for (int wi = 0; wi < 4; wi++) {
         int bw = WS[wi]; uint32_t mx = (1u << bw) - 1; uint32_t pool[3] = { 0, 1, mx };
-        int nr_max = mc_thorough() ? 4 : 3;
+        int nr_max = 4;
         for (int nr = 1; nr <= nr_max; nr++) {
             int combos = 1; for (int i = 0; i < nr; i++) combos *= 5;
             for (int c = 0; c < combos; c++)
@@ -403,7 +403,7 @@ static void check_delta(const int64_t* v, int n, int bits) {
 
 static void stage_delta(void) {
     int64_t v[300];
-    int L = mc_thorough() ? 6 : 5;
+    int L = mc_thorough() ? 7 : 6;
     mc_stage("delta.int64.all-short-sequences");
     for (int n = 1; n <= L; n++) {
         int total = 1; for (int i = 0; i < n; i++) total *= 7;
@@ -659,7 +659,7 @@ static void stage_plain(void) {
 static void stage_dict(void) {
     mc_stage("dictionary.all-short-sequences");
     static const uint64_t P[4] = { 0, 1, 0xFFFFFFFFFFFFFFFFull, 0x7FF8000000000001ull };
-    int L = mc_thorough() ? 7 : 6;
+    int L = mc_thorough() ? 8 : 7;
     for (int t = 0; t < 4; t++)           /* int32, int64, float, double */
         for (int n = 1; n <= L; n++) {
             int total = 1 << (2 * n);
